@@ -110,6 +110,11 @@ func (this *partition) loadRaft(nodeIds []uint64) error {
 		// Already loaded (e.g. by an add-node change applied before the allocator got to it)
 		return nil
 	}
+	if !this.isOnNode(this.raftTransport.NodeId()) {
+		// The allocator hands partitions over asynchronously: a remove-node change
+		// for this node applied meanwhile has already run unloadRaft (a no-op then)
+		return nil
+	}
 
 	group, err := raft.NewRaftGroup(this.id, nodeIds, this.wal, this.raftTransport)
 	if err != nil {
